@@ -3,14 +3,18 @@ namespace Yaclib.CoSharedMutex
 
 set_option maxHeartbeats 4000000 in
 theorem inv_step_0 {cfg s l s'} (hi : Inv cfg s) (hs : Step s l s') (hg : grpOf l = 0) : Inv cfg s' := by
-  cases hi
   cases hs with
   | rdFadd c h ht ho =>
+      cases hi
       by_cases hW : s.W = 0
-      · simp only [doRdFadd, hW, ↓reduceIte]; sm_dbg [List.count_le_length]
-      · simp only [doRdFadd, hW, ↓reduceIte]; sm_dbg [List.count_le_length]
-  | spinOk c k h hf => cases k <;> sm_dbg [List.count_le_length]
-  | spinBusy c k h hf => cases k <;> sm_dbg [List.count_le_length]
+      · simp only [doRdFadd, hW, ↓reduceIte]; sm_auto [List.count_le_length]
+      · simp only [doRdFadd, hW, ↓reduceIte]; sm_auto [List.count_le_length]
+  | spinOk c k h hf =>
+      cases hi
+      cases k <;> sm_auto [List.count_le_length]
+  | spinBusy c k h hf =>
+      cases hi
+      cases k <;> sm_auto [List.count_le_length]
   | _ => simp [grpOf] at hg
 
 end Yaclib.CoSharedMutex
